@@ -18,7 +18,7 @@ RULE = (
     "overwritten with NaN and the output must be bit-identical. Non-trivial = a coefficient dropped from the compiled form or "
     "a false flag in some integral; distinct by spec hash."
 )
-PROFILE = {"measures": ["dx", "dx", "ds", "dS"], "ids": "simple", "max_integrals": 3, "depth": 2, "maxdeg": 2, "max_qdeg": 3,
+PROFILE = {"measures": ["dx", "dx", "ds", "dS"], "ids": "few", "p_degree": 0.85, "max_integrals": 3, "depth": 2, "maxdeg": 2, "max_qdeg": 3,
            "ncoef": (2, 5), "nconst": (1, 3), "p_derivative": 0.5, "shuffle_decl": True, "arities": [0, 1, 1, 2], "p_scheme": 0.0,
            "p_vertex": 0.0}
 ITYPES = ("cell", "exterior_facet", "interior_facet")
